@@ -75,7 +75,7 @@ class C15:
             st.tuples(st.just('edges'), st.lists(st.integers(-3, 24), min_size=1, max_size=24)),
         )
         corr = st.one_of(st.none(), st.none(), st.tuples(
-            st.sampled_from(['begin_other', 'begin_case', 'begin_char', 'first_tag', 'first_tag88', 'first_noeq', 'bl_alpha_first', 'bl_alpha_later', 'bl_empty', 'bl_zero', 'bl_zeros',
+            st.sampled_from(['begin_other', 'begin_case', 'begin_char', 'begin_longer', 'begin_shorter', 'first_tag', 'first_tag88', 'first_noeq', 'bl_alpha_first', 'bl_alpha_later', 'bl_empty', 'bl_zero', 'bl_zeros',
                              'bl_over', 'bl_over_big', 'bl_wrap', 'bl_20digits', 'bl_minus', 'bl_space']),
             st.integers(0, 11), st.integers(0, 2), st.integers(0, 1 << 30)))
         return st.fixed_dictionaries({'schema': st.sampled_from(['UTEST', 'F44']), 'msgs': st.lists(msg, min_size=0, max_size=11), 'chunks': chunks, 'corr': corr,
@@ -93,6 +93,8 @@ class C15:
             return '8=%s\x019=%s\x01' % (begin, bl[kind]) + body
         if kind == 'begin_other': return '8=%s\x019=%s\x01' % (other, n) + body
         if kind == 'begin_case': return '8=%s\x019=%s\x01' % (begin.lower(), n) + body
+        if kind == 'begin_longer': return '8=%s\x019=%s\x01' % (begin + ['0', 'x', ' ', '.1', 'SP2', '\x00'][r % 6], n) + body      # the session's version is a proper prefix
+        if kind == 'begin_shorter': return '8=%s\x019=%s\x01' % (begin[:len(begin) - 1 - r % 3], n) + body
         if kind == 'begin_char':
             i = r % len(begin)
             b2 = begin[:i] + ('X' if begin[i] != 'X' else 'Y') + begin[i + 1:]
@@ -249,8 +251,10 @@ def st_history():
             st.tuples(st.just('tick')),
             st.tuples(st.just('in_resend'), st.integers(1, 12), st.integers(0, 12)),
             st.tuples(st.just('restart')),
+            st.tuples(st.just('restart_cfg'), st.one_of(st.none(), st.integers(0, 5)), st.one_of(st.none(), st.integers(0, 5))),
             st.tuples(st.just('send_preset'), st_preset()),
             st.tuples(st.just('batch_preset'), st.lists(st.one_of(st.none(), st_preset()), min_size=2, max_size=5)),
+            st.tuples(st.just('send_fail')),
             st.tuples(st.just('send_rich'), st_app_message(name)),
             st.tuples(st.just('batch_rich'), st.lists(st_app_message(name), min_size=2, max_size=4)),
         )
@@ -318,9 +322,18 @@ class SeqHistory:
         new_msgs = []                      # (seq, Msg) of new (not retransmitted, not SequenceReset) messages
         trace = []
         state = {'ns': ns, 'nr': nr, 'first': True}
-        cfg = case['start'] if not case['prepop'] else (0, 0)
+        cfg = case['start']
+        if case['prepop']:
+            # explicit start numbers on a store that already holds numbers: each given number overrides its own counter, the other one is recovered
+            # (given numbers never go back below the recovered ones: reusing numbers is a configuration matter, not the session's)
+            cfg = (ns + cfg[0] % 7 if cfg[0] else 0, nr + cfg[1] % 7 if cfg[1] else 0)
+            if bool(cfg[0]) != bool(cfg[1]): cls_pre = 'one_sided_start_on_recovered_store'
+            else: cls_pre = None
+        else:
+            cls_pre = None
         stored_expect = {}
         cls = set()
+        if cls_pre: cls.add(cls_pre)
 
         def absorb(o, what):
             """classify the outbound messages of one step and run the per-step oracles"""
@@ -401,6 +414,19 @@ class SeqHistory:
                 nbatch += 1
                 absorb(S.batch([sessref.nos_spec(i) for i in ids]), 'batch')
                 cls.add('batch')
+            elif k == 'send_fail':
+                # a transmit failure (the socket write fails once): nothing reaches the wire, the number is not used and nothing is stored under it; the session goes on
+                if case['wmax']:
+                    continue
+                oid[0] += 1
+                S.failnext(1)
+                o = S.send(sessref.nos_spec('o%d' % oid[0]))
+                trace.append('send app o%d while the socket write fails -> out %s' % (oid[0], [(m.type, m.seq) for m in o.msgs]))
+                if o.msgs:
+                    raise Violation('%s: bytes reached the wire although the socket write failed\n history:\n  %s' % (self.id, '\n  '.join(trace)))
+                S.failnext(0)
+                absorb(o, 'failed send')
+                cls.add('transmit_failure')
             elif k == 'send_rich':
                 trace.append('send generated app message 35=%s (%d header, %d body items: header tags %s)' % (op[1]['type'], len(op[1]['h']), len(op[1]['b']),
                                                                                                               sorted(it['t'] for it in op[1]['h'] if it['t'] not in sessref.SESSION_MANAGED)))
@@ -472,12 +498,17 @@ class SeqHistory:
                 state['nr'] += 1
                 absorb(o, 'in_resend')
                 cls.add('resend')
-            elif k == 'restart':
-                trace.append('restart (new Session/Connection on the same store)')
+            elif k in ('restart', 'restart_cfg'):
+                rc = (0, 0)
+                if k == 'restart_cfg':
+                    # restart with explicit start numbers (at or above the current ones), one of them possibly left to recovery
+                    rc = (0 if op[1] is None else state['ns'] + op[1], 0 if op[2] is None else state['nr'] + op[2])
+                    if bool(rc[0]) != bool(rc[1]): cls.add('one_sided_start_on_recovered_store')
+                trace.append('restart (new Session/Connection on the same store)%s' % ('' if rc == (0, 0) else ' with start numbers send=%s receive=%s (0 = recovered)' % rc))
                 self.before_restart(S, new_msgs, trace)
                 S.delete()
                 nrestart += 1
-                logon((0, 0))
+                logon(rc)
                 cls.add('restart')
         self.at_end(S, new_msgs, trace)
         S.delete()
@@ -937,6 +968,7 @@ class C22:
             st.tuples(st.just('in_hb'), st.booleans()),
             st.tuples(st.just('in_testreq'), st.sampled_from(['X', 'TEST', 'id-42', '9'])),
             st.tuples(st.just('in_gap'), st.integers(1, 3)),       # an application message k numbers ahead: ResendRequest goes out; the next inbound event is the peer's gap fill
+            st.tuples(st.just('in_gap_testreq'), st.integers(1, 3), st.sampled_from(['G', 'gap-7'])),   # a TestRequest k numbers ahead: ResendRequest AND the Heartbeat with its TestReqID
         )
         return st.fixed_dictionaries({'schema': st.sampled_from(['UTEST', 'F44']), 'role': st.sampled_from(['i', 'a']),
                                       'H': st.one_of(st.sampled_from([1, 2, 4, 5, 6, 30]), st.integers(1, 120)),
@@ -1049,11 +1081,21 @@ class C22:
                     last_recv = now
                     gap_from = None
                     cls.add('gap_filled')
-                    if k == 'in_gap':
+                    if k in ('in_gap', 'in_gap_testreq'):
                         continue
                 if pending_since is not None and k != 'in_hb':
                     k, e = 'in_hb', ('in_hb', True)
-                if k == 'in_gap':
+                if k == 'in_gap_testreq':
+                    gap_from = nr
+                    o = S.feed(peer.msg('1', nr + e[1], t, [(112, e[2])])); nr += e[1] + 1
+                    outs = [(m.type, m.get(112), m.get(7)) for m in o.msgs]
+                    trace.append('inbound TestRequest %s, %d numbers ahead -> out %s state %s' % (e[2], e[1], outs, sessref.STATE_NAMES[o.st]))
+                    if not any(m.type == '2' for m in o.msgs):
+                        fail('a TestRequest %d numbers ahead was not answered by a ResendRequest (out %s)' % (e[1], outs))
+                    if not any(m.type == '0' and m.get(112) == e[2] for m in o.msgs):
+                        fail('inbound TestRequest %r (numbered ahead of the expected message) not answered by a Heartbeat with the same TestReqID (out %s)' % (e[2], outs))
+                    cls.update(['resend_outstanding', 'testrequest_answered', 'testrequest_ahead_of_sequence'])
+                elif k == 'in_gap':
                     gap_from = nr
                     o = S.feed(peer.msg('D', nr + e[1], t, sessref.nos_toks('g%d' % n, t))); nr += e[1] + 1
                     trace.append('inbound app %d numbers ahead -> out %s state %s' % (e[1], [(m.type, m.get(7), m.get(16)) for m in o.msgs], sessref.STATE_NAMES[o.st]))
@@ -1124,7 +1166,9 @@ class C23:
         acc = st.fixed_dictionaries({'kind': st.just('acc'), 'schema': st.sampled_from(['UTEST', 'F44']), 'enforce': st.booleans(),
                                      'clients': st.sampled_from([None, None, 'has', 'lacks']), 'target_ok': st.sampled_from([True, True, False]),
                                      'sender': st.sampled_from(['CLI', 'CLI', 'OTHER']), 'hb': st.one_of(st.integers(1, 300), st.sampled_from([1, 30, 300])),
-                                     'reset': st.sampled_from([None, 'N', 'Y', 'Y']), 'prepop': st.one_of(st.none(), st.tuples(st.integers(2, 400), st.integers(2, 400)))})
+                                     'reset': st.sampled_from([None, 'N', 'Y', 'Y']), 'prepop': st.one_of(st.none(), st.tuples(st.integers(2, 400), st.integers(2, 400))),
+                                     # start numbers requested through Session::start(.., send, receive), 0 = not requested
+                                     'req': st.one_of(st.none(), st.none(), st.tuples(st.sampled_from([0, 5, 7, 50]), st.sampled_from([0, 9, 3, 60])))})
         ini = st.fixed_dictionaries({'kind': st.just('ini'), 'schema': st.sampled_from(['UTEST', 'F44']), 'enforce': st.sampled_from([True, True, False]),
                                      'reply': st.sampled_from(['mirror', 'both', 'sender', 'target'])})
         sid = st.fixed_dictionaries({'kind': st.just('sid'), 's1': comp, 't1': comp, 's2': comp, 't2': comp, 'same_s': st.booleans(), 'same_t': st.booleans(),
@@ -1181,15 +1225,18 @@ class C23:
             S.feed(inbound(begin, 'A', 'CLI', 'SRV', pr, ts(T0), [(98, 0), (108, 30)]))
             S.delete()
             ns, nr = ps + 1, pr + 1
-        S.new('a', 'SRV', 'CLI', 30, 'mem:c23', flags)
+        req = c.get('req') or (0, 0)
+        S.new('a', 'SRV', 'CLI', 30, 'mem:c23', flags, req[0], req[1])
+        if req[0]: ns = req[0]
+        if req[1]: nr = req[1]
         reset = c['reset'] == 'Y'
         tgt = 'SRV' if c['target_ok'] else 'NOTME'
         extra = [(98, 0), (108, c['hb'])] + ([(141, c['reset'])] if c['reset'] else [])
         seq = 1 if reset else nr
         o = S.feed(inbound(begin, 'A', c['sender'], tgt, seq, ts(T0), extra))
         logons = [m for m in o.msgs if m.type == 'A']
-        desc = 'acceptor SRV (enforcement %s, clients %s, store %s) receives Logon 49=%s 56=%s 34=%d 108=%d 141=%s -> state %s, out %s, next send %s / receive %s' % (
-            c['enforce'], c['clients'], c['prepop'], c['sender'], tgt, seq, c['hb'], c['reset'], sessref.STATE_NAMES[o.st], [(m.type, m.seq, m.get(108)) for m in o.msgs], o.nss, o.nrs)
+        desc = 'acceptor SRV (enforcement %s, clients %s, store %s, requested start numbers %s) receives Logon 49=%s 56=%s 34=%d 108=%d 141=%s -> state %s, out %s, next send %s / receive %s' % (
+            c['enforce'], c['clients'], c['prepop'], c.get('req'), c['sender'], tgt, seq, c['hb'], c['reset'], sessref.STATE_NAMES[o.st], [(m.type, m.seq, m.get(108)) for m in o.msgs], o.nss, o.nrs)
         S.delete()
         must_refuse = (c['enforce'] and not c['target_ok']) or (c['clients'] is not None and (c['clients'] == 'lacks' or c['sender'] != 'CLI'))
         must_accept = c['target_ok'] and (c['clients'] is None or (c['clients'] == 'has' and c['sender'] == 'CLI'))
@@ -1212,6 +1259,7 @@ class C23:
                     raise Violation('C23: logon without reset did not continue from the stored numbers (%d, %d): %s' % (ns, nr, desc))
         cls = ['acc', 'acc:refuse' if must_refuse else 'acc:accept' if must_accept else 'acc:unconstrained']
         if reset: cls.append('acc:reset')
+        if reset and any(req): cls.append('acc:reset_with_requested_numbers')
         return {'nontrivial': (not c['target_ok']) != (c['sender'] != 'CLI') or reset, 'classes': cls, 'key': c, 'sample': {'kind': 'acceptor', 'case': desc}}
 
 
@@ -1476,7 +1524,10 @@ class C21:
     def strategy(self):
         op = st.one_of(st.tuples(st.just('a_send'), st.integers(1, 4)), st.tuples(st.just('b_send'), st.integers(1, 4)),
                        st.tuples(st.just('pump')), st.tuples(st.just('pump')),
-                       st.tuples(st.just('drop')), st.tuples(st.just('restart_a')), st.tuples(st.just('restart_b')))
+                       st.tuples(st.just('drop')), st.tuples(st.just('restart_a')), st.tuples(st.just('restart_b')),
+                       # the same failures with the reconnect only half way: the initiator's Logon has reached the acceptor (which is established and may send at once),
+                       # the acceptor's answer is still in flight - whatever the schedule does next happens in the middle of the recovery
+                       st.tuples(st.just('drop'), st.just(1)), st.tuples(st.just('restart_a'), st.just(1)), st.tuples(st.just('restart_b'), st.just(1)))
         return st.fixed_dictionaries({'schema': st.sampled_from(['UTEST', 'F44']), 'ops': st.lists(op, min_size=1, max_size=25)})
 
     def run(self, case, ex):
@@ -1515,10 +1566,17 @@ class C21:
                         absorb(other[who], side[other[who]].feed(data))
             fail('no quiescence after 60 rounds of pumping (messages keep flowing)')
 
-        def connect():
+        def connect(half=None):
             absorb('a', A.new('i', 'CLI', 'SRV', 30, 'file:c21a'))
             absorb('b', B.new('a', 'SRV', 'CLI', 30, 'file:c21b'))
-            pump()
+            if half is None:
+                pump()
+            else:
+                data, flight['a'] = flight['a'], ''           # the Logon reaches the acceptor; its answer stays in flight
+                absorb('b', B.feed(data))
+
+        def established(who):
+            return side[who].obs().st == sessref.ST_CONTINUOUS
 
         def teardown(lose):
             for who in lose:
@@ -1545,6 +1603,10 @@ class C21:
             k = op[0]
             if k in ('a_send', 'b_send'):
                 who = k[0]
+                if not established(who):
+                    pump()                     # an application sends on an established session only
+                else:
+                    if flight['a'] or flight['b']: cls.add('send_while_recovery_in_flight')
                 for _ in range(op[1]):
                     n += 1
                     mid = '%s%d' % (who.upper(), n)
@@ -1562,14 +1624,16 @@ class C21:
                 lost_apps = any('\x0135=D\x01' in flight[w] for w in lose)
                 trace.append('%s with %d/%d bytes in flight (A->B/B->A)' % (k, len(flight['a']), len(flight['b'])))
                 teardown(lose)
-                connect()
+                connect(op[1] if len(op) > 1 else None)
                 cls.add(k)
+                if len(op) > 1: cls.add('reconnect_half_way')
                 if lost_apps:
                     loss_with_flight = True
                     cls.add('loss_in_flight')
         # quiescence
         clock[0] += 1
         sessref.set_clock(ex, clock[0])
+        pump()                                 # a reconnect left half way is completed first: applications send on established sessions only
         for who in ('a', 'b'):
             n += 1
             mid = '%s%dfinal' % (who.upper(), n)
